@@ -20,6 +20,9 @@ func init() {
 			"C09.lexinput — the lexer scans exactly ParseQuery's argument; C09.unquote — the string decoder removes exactly one delimiter at each end of a value token before turning `\"\"` into one quote (so '\"\"' adjacent to the delimiters is kept); " +
 			"C09.panics — every panic in the parser package carries a value implementing error (or is the re-panic of a recovered runtime.Error), and ParseQuery defers a recover handler, so parse errors surface as errors. " +
 			"C09.progress — termination of the lexer: each state function is interpreted over the finite partition of the rune domain induced by the constants it compares the current rune with; every cycle of the state graph is shown to consume at least one rune (a direct next() with a rune present, or acceptRun(S) reached only with the current rune in S), and every loop inside the lexer calls next() on each iteration; " +
+			"C09.noquery — in the function that converts parse panics into the error result, no other result is assigned before the last call that can raise a parse error (so an error is never accompanied by a query); " +
+			"C09.closedtoken — on the edge on which a rune obtained from next() turns out to be the end of the input, every path raises a lexical error before it can emit a token (an unterminated string never becomes a value token); " +
+			"C09.nodrop — no lexer state returns after consuming input without emitting a token, raising a lexical error, explicitly skipping it or backing up (so an unterminated string cannot vanish from the token stream and leave a shorter, acceptable query); " +
 			"NOT decided: that the accepted language equals the documented EBNF and that the tree has the prescribed shape (language equivalence); absence of runtime panics from the lexer's index arithmetic (needs relational numeric invariants); termination of the recursive-descent parser itself (follows from the lexer delivering a finite token stream, not checked).",
 		assumptions: []string{"go/ssa CFG; NORETURN summary of the error helper (all its exits are panics)", "channel close/receive semantics"},
 	})
@@ -36,6 +39,9 @@ func runC09(c *Ctx) {
 	unquoteRule(c, "C09.unquote")
 	lexInputRule(c, "C09.lexinput")
 	c09Progress(c)
+	c09NoDrop(c)
+	c09ClosedToken(c)
+	c09NoQueryOnError(c)
 }
 
 func c09Goroutine(c *Ctx) {
@@ -607,4 +613,109 @@ func lowerBounded(c *Ctx, v ssa.Value, blk *ssa.BasicBlock, at ssa.Instruction, 
 		return true
 	}
 	return false
+}
+
+// c09NoQueryOnError: "otherwise it returns an error and no query". Parse errors are raised by panic and turned into the
+// error result by a deferred recover handler; the other named result keeps whatever was assigned to it before the panic.
+// So in a function that defers such a handler, a non-nil store to a result cell other than the error must not be able
+// to reach a call that can raise a parse error (the diverging helper, directly or through parser methods): otherwise the
+// function returns a query together with the error.
+func c09NoQueryOnError(c *Ctx) {
+	const rule = "C09.noquery"
+	n := 0
+	for _, fn := range c.w.ModFuncs {
+		if c.w.pkgPathOf(fn) != pkgParser || fn.Blocks == nil || fn.Recover == nil {
+			continue
+		}
+		// a deferred handler that calls recover()
+		handles := false
+		allInstrs(fn, func(i ssa.Instruction) {
+			d, ok := i.(*ssa.Defer)
+			if !ok {
+				return
+			}
+			h := calleeFunc(&d.Call)
+			if h == nil || h.Blocks == nil {
+				return
+			}
+			if c.fc.mayContain(h, func(j ssa.Instruction) bool {
+				call, ok := j.(*ssa.Call)
+				if !ok {
+					return false
+				}
+				b, isB := call.Call.Value.(*ssa.Builtin)
+				return isB && b.Name() == "recover"
+			}, 1) {
+				handles = true
+			}
+		})
+		if !handles {
+			continue
+		}
+		// result cells: what the recover block's return loads
+		var cells []ssa.Value
+		for _, ins := range fn.Recover.Instrs {
+			if ret, ok := ins.(*ssa.Return); ok {
+				for _, rv := range ret.Results {
+					if ld, ok := rv.(*ssa.UnOp); ok && ld.Op == token.MUL && !isErrorType(rv.Type()) {
+						cells = append(cells, ld.X)
+					}
+				}
+			}
+		}
+		if len(cells) == 0 {
+			continue
+		}
+		n++
+		mayRaise := func(i ssa.Instruction) bool {
+			if _, ok := i.(*ssa.Panic); ok {
+				return true
+			}
+			call, ok := i.(*ssa.Call)
+			if !ok {
+				return false
+			}
+			if c.fc.diverges(i) {
+				return true
+			}
+			h := calleeFunc(&call.Call)
+			if h == nil || !c.w.inModule(h) || c.w.pkgPathOf(h) != pkgParser {
+				return false
+			}
+			return c.fc.mayContain(h, func(j ssa.Instruction) bool {
+				if _, ok := j.(*ssa.Panic); ok {
+					return true
+				}
+				return c.fc.diverges(j)
+			}, 4)
+		}
+		var witness []ssa.Instruction
+		allInstrs(fn, func(i ssa.Instruction) {
+			st, ok := i.(*ssa.Store)
+			if !ok || witness != nil || isNilConst(st.Val) {
+				return
+			}
+			isCell := false
+			for _, cl := range cells {
+				if st.Addr == cl {
+					isCell = true
+				}
+			}
+			if !isCell {
+				return
+			}
+			if p := c.fc.pathAvoiding(fn, st, mayRaise, nil); p != nil {
+				witness = p
+			}
+		})
+		if witness != nil {
+			c.r.bad(rule, safeFname(fn), "a result other than the error is assigned before a call that can raise a parse error: the recover handler then returns the error together with a (partial) query instead of no query",
+				[]string{c.w.ipos(witness[len(witness)-1])}, c.fc.witnessStrings(witness)...)
+		} else {
+			c.r.ok(rule, safeFname(fn), "no result is assigned before the last call that can raise a parse error", c.w.pos(fn.Pos()))
+		}
+	}
+	if n == 0 {
+		c.r.ok(rule, "parser", "no function of the parser converts panics into an error result next to another result")
+	}
 }
